@@ -73,8 +73,24 @@ func buildSchema(impl string, stringKeys bool) *graphql.Schema {
 		obj.Key("id")
 		var opts []schemabuilder.FieldFuncOption
 		opts = append(opts, schemabuilder.Paginated)
+		// "mixed" schemas give the two filter fields different kinds (the element list is []*Item)
+		mixed := map[string]map[string]string{"mixed": {"name": "plainp", "desc": "batchp"}, "mixed2": {"name": "expensive", "desc": "plainp"}, "mixed3": {"name": "batchp", "desc": "expensive"}}
 		ff := func(name string, get func(Item) string) {
-			switch impl {
+			kind := impl
+			if m, ok := mixed[impl]; ok {
+				kind = m[name]
+			}
+			switch kind {
+			case "plainp":
+				opts = append(opts, schemabuilder.FilterField(name, func(i *Item) string { return get(*i) }))
+			case "batchp":
+				opts = append(opts, schemabuilder.BatchFilterField(name, func(ctx context.Context, m map[batch.Index]*Item) (map[batch.Index]string, error) {
+					out := map[batch.Index]string{}
+					for k, v := range m {
+						out[k] = get(*v)
+					}
+					return out, nil
+				}))
 			case "plain":
 				opts = append(opts, schemabuilder.FilterField(name, func(i Item) string { return get(i) }))
 			case "expensive":
@@ -198,7 +214,7 @@ func buildSchema(impl string, stringKeys bool) *graphql.Schema {
 	return s.MustBuild()
 }
 
-var impls = []string{"plain", "expensive", "batch", "batchfb", "stringkeys"}
+var impls = []string{"plain", "expensive", "batch", "batchfb", "stringkeys", "mixed", "mixed2", "mixed3"}
 
 func init() {
 	for _, im := range impls {
